@@ -162,7 +162,8 @@ fn runtime_settings() -> RuntimeSettings {
         WebSettings {
             enabled: false,
             listen: "127.0.0.1:0".into(),
-            auth: "local".into(),
+            // never produced by config.set (which lower-cases), so that every accepted web.auth is a change
+            auth: "Local".into(),
             tls: false,
         },
         DiscoverySettings {
@@ -175,7 +176,8 @@ fn runtime_settings() -> RuntimeSettings {
             enabled: false,
             listen: "127.0.0.1:0".into(),
             tls: false,
-            auth_token: None,
+            // config.set palette never sets this value, so that every accepted mesh.auth_token is a change
+            auth_token: Some("initial-mesh-token".into()),
             publish: Vec::new(),
             subscribe: indexmap::IndexMap::new(),
         },
@@ -188,16 +190,25 @@ fn runtime_settings() -> RuntimeSettings {
     )
 }
 
-/// Open sockets of this process as (fd, "socket:[inode]").
-fn open_sockets() -> Vec<(i32, String)> {
+/// The fd of this process's socket bound to `path` (via /proc/net/unix: inode of the bound path).
+fn listener_fd_for(path: &Path) -> Vec<i32> {
+    let want = path.to_string_lossy().to_string();
+    let mut inodes = Vec::new();
+    if let Ok(text) = std::fs::read_to_string("/proc/net/unix") {
+        for line in text.lines() {
+            let cols: Vec<&str> = line.split_whitespace().collect();
+            if cols.len() >= 8 && cols[7] == want {
+                inodes.push(format!("socket:[{}]", cols[6]));
+            }
+        }
+    }
     let mut v = Vec::new();
     if let Ok(rd) = std::fs::read_dir("/proc/self/fd") {
         for e in rd.flatten() {
             if let Ok(n) = e.file_name().to_string_lossy().parse::<i32>() {
                 if let Ok(target) = std::fs::read_link(e.path()) {
-                    let target = target.to_string_lossy().to_string();
-                    if target.starts_with("socket:") {
-                        v.push((n, target));
+                    if inodes.iter().any(|i| target.to_string_lossy() == *i) {
+                        v.push(n);
                     }
                 }
             }
@@ -228,7 +239,8 @@ impl World {
     fn new_inner(base: &mut Base, cfg: &WorldCfg) -> World {
         let t00 = std::time::Instant::now();
         let seq = WORLD_SEQ.fetch_add(1, Ordering::SeqCst);
-        let dir = std::env::temp_dir().join(format!("vh-c18-{}-{}", std::process::id(), seq));
+        let tmp = if Path::new("/dev/shm").is_dir() { PathBuf::from("/dev/shm") } else { std::env::temp_dir() };
+        let dir = tmp.join(format!("vh-c18-{}-{}", std::process::id(), seq));
         let _ = std::fs::remove_dir_all(&dir);
         let root = dir.join("project");
         std::fs::create_dir_all(&root).expect("mkdir world");
@@ -379,9 +391,8 @@ impl World {
         if std::env::var("VH_PROF").is_ok() { eprintln!("G-alarm {}", t00.elapsed().as_micros()); }
         let state = Arc::new(state);
         let sock = dir.join("c.sock");
-        let before: Vec<String> = open_sockets().into_iter().map(|(_, t)| t).collect();
         ControlServer::start(ControlEndpoint::Unix(sock.clone()), state.clone()).expect("start control server");
-        let listener_fds: Vec<i32> = open_sockets().into_iter().filter(|(_, t)| !before.contains(t)).map(|(fd, _)| fd).collect();
+        let listener_fds: Vec<i32> = listener_fd_for(&sock);
         if std::env::var("VH_PROF").is_ok() { eprintln!("H-server {}", t00.elapsed().as_micros()); }
         World {
             state,
@@ -473,8 +484,12 @@ impl World {
     }
 
     pub fn connect(&self) -> Client {
+        self.connect_with_timeout(Duration::from_secs(4))
+    }
+
+    pub fn connect_with_timeout(&self, timeout: Duration) -> Client {
         let stream = UnixStream::connect(&self.sock).expect("connect to the control socket");
-        stream.set_read_timeout(Some(Duration::from_secs(4))).unwrap();
+        stream.set_read_timeout(Some(timeout)).unwrap();
         Client {
             reader: BufReader::new(stream.try_clone().unwrap()),
             writer: stream,
@@ -1209,7 +1224,7 @@ fn run_case(n: u64, args: &Args, base: &mut Base, t: &Tables, out: &mut Out) {
     let mut rng = Rng::for_case(args.seed, n);
     let ex = exhaustive_size(t);
     out.line(format!("case {n}"));
-    let mut cw_nontrivial = false;
+    let cw_nontrivial;
     if n < ex {
         // exhaustive product: type x credential x {token set} x {debug on}
         let k = n as usize;
@@ -1383,10 +1398,41 @@ fn run_case(n: u64, args: &Args, base: &mut Base, t: &Tables, out: &mut Out) {
     out.line("end");
 }
 
+
+/// Replay of the witnesses of the recorded findings against the real server (one world each).
+/// Prints one `finding <id> <observed>` line per witness into the cases file's side channel (stats).
+fn replay_findings(base: &mut Base, out: &mut Out) {
+    // (1) a request line that is not valid UTF-8: the connection is dropped without a reply
+    {
+        let cfg = WorldCfg { token: None, requires_auth: false, debug_enabled: true, debug_mode: false, pairing: false, tokens: vec![] };
+        let w = World::new(base, &cfg);
+        let mut c = w.connect();
+        let r = c.send(b"{\"id\":1,\"type\":\"status\",\"x\":\"\xff\"}");
+        let (class, _) = classify_reply(&r);
+        out.count(&format!("finding:nonutf8-line:{}", class.replace(' ', "_")));
+    }
+    // (2) debug.evaluate with an expression that parses: handle_debug_evaluate holds the metadata lock
+    //     while evaluate_with_snapshot locks it again
+    {
+        let cfg = WorldCfg { token: None, requires_auth: false, debug_enabled: true, debug_mode: true, pairing: false, tokens: vec![] };
+        let w = World::new(base, &cfg);
+        let mut c = w.connect_with_timeout(Duration::from_millis(1500));
+        let r = c.send(b"{\"id\":2,\"type\":\"debug.evaluate\",\"params\":{\"expression\":\"1 + 1\"}}");
+        let (class, _) = classify_reply(&r);
+        out.count(&format!("finding:debug-evaluate:{}", class.replace(' ', "_")));
+        // is the metadata lock still held? (hmi.schema.get needs it)
+        let mut c2 = w.connect_with_timeout(Duration::from_millis(1000));
+        let r2 = c2.send(b"{\"id\":3,\"type\":\"hmi.schema.get\"}");
+        let (class2, _) = classify_reply(&r2);
+        out.count(&format!("finding:debug-evaluate-then-schema:{}", class2.replace(' ', "_")));
+        let free = w.state.metadata.try_lock().is_ok();
+        out.count(&format!("finding:debug-evaluate-metadata-lock-free:{free}"));
+    }
+}
+
 pub fn run(args: &Args) -> i32 {
     let tables_path = args.extra.get("tables").cloned().unwrap_or_else(|| "C18.tables.json".into());
     let t = load_tables(&tables_path);
-    let mut base = Base::new();
     let mut out = Out::new();
     let started = std::time::Instant::now();
     let ex = exhaustive_size(&t);
@@ -1394,8 +1440,37 @@ pub fn run(args: &Args) -> i32 {
         Some(n) => vec![n],
         None => (0..ex + args.cases).collect(),
     };
-    for n in numbers {
-        run_case(n, args, &mut base, &t, &mut out);
+    // cases are independent (own world, own RNG stream): run them on a few threads, emit in case order
+    let nthreads = args.extra_usize("threads", 4).max(1);
+    let slots: Vec<Mutex<Option<Out>>> = numbers.iter().map(|_| Mutex::new(None)).collect();
+    std::thread::scope(|scope| {
+        for tid in 0..nthreads {
+            let numbers = &numbers;
+            let slots = &slots;
+            let t = &t;
+            scope.spawn(move || {
+                let mut base = Base::new();
+                for (i, n) in numbers.iter().enumerate() {
+                    if i % nthreads != tid {
+                        continue;
+                    }
+                    let mut o = Out::new();
+                    run_case(*n, args, &mut base, t, &mut o);
+                    *slots[i].lock().unwrap() = Some(o);
+                }
+            });
+        }
+    });
+    for slot in &slots {
+        let o = slot.lock().unwrap().take().expect("case output");
+        out.buf.push_str(&o.buf);
+        for (k, v) in &o.stats {
+            out.add(k, *v);
+        }
+    }
+    let mut base = Base::new();
+    if args.only.is_none() {
+        replay_findings(&mut base, &mut out);
     }
     out.add("exhaustive-cases", ex);
     out.add("wall-ms", started.elapsed().as_millis() as u64);
